@@ -856,7 +856,7 @@ var _ = chain.ErrMissingBlock
 
 func init() {
 	register(&Prop{
-		ID: "C07", Run: runC07, Flavour: "instrumented", Quick: 700, Thorough: 20000, Level: "exploration",
+		ID: "C07", Run: runC07, Race: true, Flavour: "instrumented", Quick: 700, Thorough: 20000, Level: "exploration",
 		Rule:        "one run = drawn wallet options (defrag threshold 0-40, max inputs for defrag 0-40, max defrag outputs 0-12, reservation 1s-6h) and a chain that leaves the wallet with mature, immature, pool-spent and unconfirmed outputs; then 10-40 drawn operations: FundV2Transaction (0, 1H, exactly spendable, spendable+1H, drawn; with/without unconfirmed), sign+broadcast / keep outstanding / release, Redistribute, SplitUTXO, blocks confirming the pool, clock jumps around the reservation period, reorgs, restart (new manager with empty pool + new wallet on the same store re-loading broadcast sets), foreign payments into the pool, and 2-4 FundV2Transaction calls (in half of the cases together with a SplitUTXO) issued from concurrent goroutines (amounts that cannot all succeed; a seeded scheduler decides who proceeds at the store seam and, in the instrumented flavour, at every Lock / Unlock), whose results must be pairwise disjoint; after every operation: selection rules (owned, mature, unspent, not pool-spent, not reserved by an outstanding request), value conservation, failed calls change nothing, signed results accepted by the pool, and Balance().Spendable == sum(SpendableOutputs()) == independent model == largest fundable amount; distinct = abstract trace; non-trivial = a clock jump, reorg or restart",
 		Real:        []string{"wallet.SingleAddressWallet (funding, signing, redistribute, split, release, broadcast, restart)", "chain.Manager", "chain.DBStore"},
 		Stub:        []string{"wallet store: harness walletStore", "syncer: recording stub", "disk: simdisk.DB"},
